@@ -1,11 +1,123 @@
-import PersimVerif.Model.Landscape
+import PersimVerif.Lemmas.LandscapeCell
+import Mathlib.Algebra.Order.Field.Rat
+import Mathlib.Algebra.Order.Ring.Abs
+
+/-!
+# C03 — the exact landscape equals the k-th-largest-tent definition, everywhere
+
+Objects (all from `PersimVerif/Model/PLBase.lean` and `PersimVerif/Model/Landscape.lean`):
+
+* `landscape bars k t` — the mathematical landscape: the `k`-th largest (`k = 0` outermost) of the tent
+  values `max 0 (min (t-b) (d-t))` over the bars, with multiplicity; `0` beyond the number of bars;
+* `evalDepth cps k t` — what a list of critical-point lists denotes: linear interpolation of depth `k`,
+  `0` outside the first/last abscissa, and the zero function for `k` beyond the last depth returned;
+* `certify bars cps : Bool` — the executable checker the harness runs (compiled, at `Rat`) on the
+  real code's own output for every generated diagram;
+* `sweep` / `exact` — the line-by-line model of `compute_landscape` / the constructor, shortcut included.
+
+`certify_sound` turns every `T` answered by the checker into "equal at **every** `t` and **every** depth".
+The statements hold over any linear ordered field `K` (in particular ℚ, where the driver computes on the
+exact rational values of the floats, and ℝ).  Nothing here is about floating point.
+-/
+set_option linter.unusedSectionVars false
 
 namespace PersimVerif.C03
-open PersimVerif.PL PersimVerif.Landscape
+open PersimVerif.PL PersimVerif.Landscape PersimVerif.LandscapeLemmas
 
-/-- the known finding as a theorem about the model of the current code (placeholder, completed below) -/
-theorem shortcut_model_value :
-    (sweep (α := Rat) [(1, 5), (1, 5), (3, 6)]).map (fun o => (decide (0 < o.fired), evalDepth o.cps 1 (9/2))) = some (true, 3/2) := by
-  decide +kernel
+section Field
+variable {K : Type} [Field K] [LinearOrder K] [IsStrictOrderedRing K]
+
+/-- what an accepted run of the checker establishes about its input (unpacked `certifyTol`) -/
+private theorem certifyTol_unpack {eps : K} {bars : List (K × K)} {cps : List (List (K × K))}
+    (h : certifyTol eps bars cps = true) :
+    (∀ c ∈ cps, wellFormed c = true) ∧ 0 ≤ eps ∧ (cuts bars cps).Pairwise (· < ·) ∧
+      ∀ lr ∈ (cuts bars cps).zip (cuts bars cps).tail,
+        cellOK eps bars cps (max bars.length cps.length) lr.1 lr.2 = true := by
+  simp only [certifyTol, Bool.and_eq_true, List.all_eq_true, decide_eq_true_eq] at h
+  obtain ⟨⟨⟨h1, h2⟩, h3⟩, h4⟩ := h
+  exact ⟨h1, h2, strictAsc_pairwise h3, h4⟩
+
+/-- **Soundness of the checker with tolerance.**  For all bars and all candidate critical-point
+    lists: if `certifyTol eps bars cps` answers `true`, the candidate is within `eps` of the landscape at
+    every real `t` and every depth `k` (depths beyond `cps.length` read as `0`).
+    No hypothesis on the bars is needed (a bar with `d ≤ b` has the zero tent). -/
+theorem certifyTol_sound {eps : K} {bars : List (K × K)} {cps : List (List (K × K))}
+    (h : certifyTol eps bars cps = true) (k : Nat) (t : K) :
+    |evalDepth cps k t - landscape bars k t| ≤ eps := by
+  obtain ⟨hwf, heps, hE, hcells⟩ := certifyTol_unpack h
+  rw [abs_le]
+  suffices hs : evalDepth cps k t - landscape bars k t ≤ eps ∧ landscape bars k t - evalDepth cps k t ≤ eps by
+    constructor <;> linarith [hs.1, hs.2]
+  have hzero : landscape bars k t = 0 → evalDepth cps k t = 0 →
+      evalDepth cps k t - landscape bars k t ≤ eps ∧ landscape bars k t - evalDepth cps k t ≤ eps := by
+    intro e1 e2; rw [e1, e2]; simp [heps]
+  rcases cells_cover hE t with hl | hr | ⟨lr, hmem, h1, h2, hlt, hin⟩
+  · -- left of every event: both sides vanish
+    apply hzero
+    · apply landscape_zero_of_all_zero
+      intro p hp
+      exact tent_zero_left (hl _ (bar_events_mem cps hp).1)
+    · cases hk : cps[k]? with
+      | none => exact evalDepth_none hk t
+      | some c =>
+        have hc : c ∈ cps := List.mem_of_getElem? hk
+        rw [evalDepth_some hk]
+        exact evalPL_le_all (hwf c hc) (fun q hq => hl _ (crit_events_mem bars hc hq))
+  · -- right of every event
+    apply hzero
+    · apply landscape_zero_of_all_zero
+      intro p hp
+      exact tent_zero_right (hr _ (bar_events_mem cps hp).2.2)
+    · cases hk : cps[k]? with
+      | none => exact evalDepth_none hk t
+      | some c =>
+        have hc : c ∈ cps := List.mem_of_getElem? hk
+        rw [evalDepth_some hk]
+        exact evalPL_ge_all' (hwf c hc) (fun q hq => hr _ (crit_events_mem bars hc hq))
+  · -- inside an accepted cell
+    exact cell_sound heps le_rfl hwf hlt hin (hcells lr hmem) h1 h2 k
+
+/-- **`certify_sound`** (the committed obligation of C03).  For all bars and all candidate critical-point
+    lists `cps`: if the executable `certify bars cps` answers `true`, then the piecewise-linear functions
+    given by `cps` coincide with the mathematical landscape at **every** `t` and **every** depth `k`
+    (`k = 0` is the outermost function; depths beyond `cps.length` read as the zero function). -/
+theorem certify_sound {bars : List (K × K)} {cps : List (List (K × K))}
+    (h : certify bars cps = true) (k : Nat) (t : K) : evalDepth cps k t = landscape bars k t := by
+  have := certifyTol_sound (eps := 0) h k t
+  exact sub_eq_zero.mp (abs_nonpos_iff.mp this)
+
+/-- the form the property is usually quoted in: bars of positive length (the hypothesis is not needed) -/
+theorem certify_sound_pos {bars : List (K × K)} {cps : List (List (K × K))}
+    (_hpos : ∀ p ∈ bars, p.1 < p.2) (h : certify bars cps = true) :
+    ∀ k t, evalDepth cps k t = landscape bars k t := fun k t => certify_sound h k t
+
+/-- **every depth beyond the last one returned is identically zero** — on the candidate's side by
+    definition, hence (by soundness) on the definition's side too -/
+theorem certify_beyond_last {bars : List (K × K)} {cps : List (List (K × K))}
+    (h : certify bars cps = true) {k : Nat} (hk : cps.length ≤ k) (t : K) :
+    evalDepth cps k t = 0 ∧ landscape bars k t = 0 := by
+  have e : evalDepth cps k t = 0 := evalDepth_none (List.getElem?_eq_none hk) t
+  exact ⟨e, by rw [← certify_sound h k t, e]⟩
+
+/-- **critical points are ordered by abscissa and the functions vanish outside them**: an accepted
+    candidate has, at every depth, at least two points, strictly increasing abscissae, zero first and last
+    ordinate, and its function is `0` at and beyond both ends -/
+theorem certify_ordered_vanishing {bars : List (K × K)} {cps : List (List (K × K))}
+    (h : certify bars cps = true) {c : List (K × K)} (hc : c ∈ cps) :
+    2 ≤ c.length ∧ (c.map Prod.fst).Pairwise (· < ·) ∧
+      (∀ p ∈ c.head?, p.2 = 0) ∧ (∀ p ∈ c.getLast?, p.2 = 0) ∧
+      (∀ t, (∀ p ∈ c, t ≤ p.1) → evalPL c t = 0) ∧ (∀ t, (∀ p ∈ c, p.1 ≤ t) → evalPL c t = 0) := by
+  have hwf : wellFormed c = true := (certifyTol_unpack h).1 c hc
+  refine ⟨?_, ?_, ?_, ?_, fun t ht => evalPL_le_all hwf ht, fun t ht => evalPL_ge_all' hwf ht⟩
+  · obtain ⟨x0, q, rest, rfl, _⟩ := good_of_wellFormed hwf
+    simp
+  · obtain ⟨x0, q, rest, rfl, hg⟩ := good_of_wellFormed hwf
+    exact good_pairwise hg
+  · obtain ⟨x0, q, rest, rfl, _⟩ := good_of_wellFormed hwf
+    simp
+  · obtain ⟨x0, q, rest, rfl, hg⟩ := good_of_wellFormed hwf
+    exact good_last hg
+
+end Field
 
 end PersimVerif.C03
